@@ -25,25 +25,25 @@ def amortisedSites : List (String × String) := [
   ("parser.BasicParser", "call strings.ToLower"),                        -- dot-segment tests: once per path segment, over that segment
   ("parser.BasicParser", "copying conversion []byte(s)"),                -- percent-decoding a host: once per host
   ("parser.BasicParser", "copying conversion string(bb)"),               -- encoding override of a buffer: once per component
-  ("parser.BasicParser", "copying conversion string(i.runes[:])"),       -- remainingStartsWith/FromPointer: states visited a bounded number of times per parse; IPv6 "::" test: at most 8 pieces
+  ("parser.BasicParser", "copying conversion string(i.runes)"),       -- remainingStartsWith/FromPointer: states visited a bounded number of times per parse; IPv6 "::" test: at most 8 pieces
   ("parser.parseHost", "copying conversion []rune(s)"),                  -- once per host
   ("SearchParams.init", "call strings.ReplaceAll"),                      -- once per parameter, over that parameter
   ("SearchParams.init", "call strings.SplitN"),                          -- once per parameter, over that parameter
   ("SearchParams.init", "copying conversion []byte(s)"),                 -- decoding: once per name / value
   ("repeatedDecode", "copying conversion []byte(s)"),                    -- canonicalizer: once per decoding round; each round but the last shortens the text (C17_decode_shortens)
-  ("parser.parseOpaqueHost", "copying conversion []rune(input[:])")]     -- bounded slice: at most 3 bytes after a '%' (repaired F16)
+  ("parser.parseOpaqueHost", "copying conversion []rune(input)")]     -- bounded slice: at most 3 bytes after a '%' (repaired F16)
 
 /-- sites that copy a piece of bounded size (at most 3 code points / 12 bytes / 39 characters) -/
 def constantSites : List (String × String) := [
   ("IPv6Addr.String", "string += output"),                                        -- 8 pieces
   ("parser.BasicParser", "copying conversion string(?)"),                         -- one byte
   ("parser.BasicParser", "copying conversion string(percentEncoded[:])"),         -- the escape of one code point
-  ("parser.BasicParser", "copying conversion string(runes[:])"),                  -- at most three code points
-  ("parser.DecodePercentEncoded", "copying conversion string(bytes[:])"),         -- three bytes
+  ("parser.BasicParser", "copying conversion string(runes)"),                  -- at most three code points
+  ("parser.DecodePercentEncoded", "copying conversion string(bytes)"),         -- three bytes
   ("parser.PercentEncodeString", "copying conversion string(percentEncoded[:])"), -- the escape of one code point
   ("SearchParams.QueryEscape", "copying conversion string(percentEncoded[:])"),   -- the escape of one code point
   ("parser.parseOpaqueHost", "copying conversion string(percentEncoded[:])"),     -- the escape of one code point
-  ("parser.parseOpaqueHost", "copying conversion string(runes[:])"),              -- at most three code points
+  ("parser.parseOpaqueHost", "copying conversion string(runes)"),              -- at most three code points
   ("percentEncodeString", "copying conversion string(percentEncoded)"),           -- three bytes
   ("percentEncode", "copying conversion string(percentEncoded)")]                 -- three bytes
 
